@@ -609,7 +609,7 @@ func (x *Exec) specCallExpr(env *SpecEnv, e *SExpr) Value {
 			for _, a := range e.Args[1:] {
 				ids = append(ids, x.identityOf(env.st, x.specEval(env, a)))
 			}
-			return IntV{App("sprintf_"+sanitize(f)+fmt.Sprintf("_%d", len(ids)), SInt, ids...)}
+			return IntV{App(x.sprintfSymbol(f, len(ids)), SInt, ids...)}
 		case "timefmt":
 			return IntV{App("timefmt", SInt, mk("div", SInt, x.asTerm(x.specEval(env, e.Args[0])), IntLit(1_000_000_000)))}
 		case "cfgval":
@@ -734,6 +734,9 @@ func (x *Exec) specCallExpr(env *SpecEnv, e *SExpr) Value {
 			return BoolV{errIs(a, b)}
 		}
 		if v, ok := x.specHook(env, name, e); ok {
+			return v
+		}
+		if v, ok := x.specKeyBuiltin(env, name, e); ok {
 			return v
 		}
 		if sf, ok := x.C.Specs[name]; ok {
